@@ -723,6 +723,7 @@ class PortCollection (object):
   def copy (self):
     r = PortCollection()
     r._ports = set(self.values())
+    return r
 
 
 class Connection (EventMixin):
